@@ -36,6 +36,9 @@ pub enum SizeSel {
     MaxPlus(i8),
     /// free space + sizes of the n least-recently-used other entries + d
     NeedEvict(u8, i8),
+    /// (limit >> k) + d: sizes that scale with the limit, so that limits near
+    /// usize::MAX are exercised with entries of that magnitude
+    Frac(u8, i8),
 }
 
 #[derive(Clone, Copy, Debug, PartialEq, Eq, Hash)]
@@ -50,6 +53,10 @@ pub enum LimSel {
     Ents(u16, i8),
     Max,
     MaxMinus(u8),
+    /// 2^e + d (e <= 63)
+    Pow(u8, i8),
+    /// 2^63 + 2^62 + d
+    ThreeQuarters(i8),
 }
 
 #[derive(Clone, Copy, Debug, PartialEq, Eq, Hash)]
@@ -125,6 +132,200 @@ pub enum Rest {
     Front,
     Back,
     Alternate,
+    // finishing consumers: the iterator is handed, by value, to one of the
+    // provided methods / adaptors of Iterator and DoubleEndedIterator
+    Count,
+    Last,
+    /// `for_each` (internal iteration through `fold`)
+    Fold,
+    /// `rev().for_each` (through `rfold`)
+    RFold,
+    /// `skip(k).for_each`
+    Skip(u8),
+    /// `step_by(k + 1).for_each`
+    StepBy(u8),
+    /// `rev().step_by(k + 1).for_each`
+    RevStepBy(u8),
+    /// `by_ref().take(k)` collected, then the rest front to back with `next`
+    TakeThenFront(u8),
+}
+
+impl Rest {
+    pub fn to_text(self) -> String {
+        match self {
+            Rest::Stop => "stop".into(), Rest::Front => "front".into(), Rest::Back => "back".into(),
+            Rest::Alternate => "alternate".into(), Rest::Count => "count".into(), Rest::Last => "last".into(),
+            Rest::Fold => "fold".into(), Rest::RFold => "rfold".into(),
+            Rest::Skip(k) => format!("skip{}", k), Rest::StepBy(k) => format!("step{}", k),
+            Rest::RevStepBy(k) => format!("rstep{}", k), Rest::TakeThenFront(k) => format!("take{}", k),
+        }
+    }
+
+    pub fn from_text(s: &str) -> Option<Rest> {
+        Some(match s {
+            "stop" => Rest::Stop, "front" => Rest::Front, "back" => Rest::Back, "alternate" => Rest::Alternate,
+            "count" => Rest::Count, "last" => Rest::Last, "fold" => Rest::Fold, "rfold" => Rest::RFold,
+            _ => {
+                if let Some(k) = s.strip_prefix("skip") { Rest::Skip(k.parse().ok()?) }
+                else if let Some(k) = s.strip_prefix("step") { Rest::StepBy(k.parse().ok()?) }
+                else if let Some(k) = s.strip_prefix("rstep") { Rest::RevStepBy(k.parse().ok()?) }
+                else if let Some(k) = s.strip_prefix("take") { Rest::TakeThenFront(k.parse().ok()?) }
+                else { return None; }
+            },
+        })
+    }
+
+    /// the iterator is consumed by value (it cannot be forgotten afterwards)
+    pub fn finishing(self) -> bool {
+        !matches!(self, Rest::Stop | Rest::Front | Rest::Back | Rest::Alternate)
+    }
+}
+
+/// One explicit call on an iterator.
+#[derive(Clone, Copy, Debug, PartialEq, Eq, Hash)]
+pub enum Call {
+    Next,
+    NextBack,
+    Nth(u8),
+    NthBack(u8),
+    /// `size_hint()`: only has to be memory-safe and bracket what remains
+    Hint,
+}
+
+impl Call {
+    pub fn back(self) -> bool { matches!(self, Call::NextBack | Call::NthBack(_)) }
+    pub fn positional(self) -> bool { matches!(self, Call::Nth(_) | Call::NthBack(_)) }
+    pub fn letter(self) -> String {
+        match self {
+            Call::Next => "f".into(), Call::NextBack => "b".into(), Call::Hint => "h".into(),
+            Call::Nth(n) => format!("n{:x}", n.min(15)), Call::NthBack(n) => format!("m{:x}", n.min(15)),
+        }
+    }
+}
+
+/// The calls actually made: the explicit ones plus what `rest` adds.
+#[derive(Clone, Debug)]
+pub struct WalkPlan {
+    pub calls: Vec<Call>,
+    /// `Stop` or one of the finishing consumers
+    pub fin: Rest,
+}
+
+pub fn plan_walk(calls: &[Call], rest: Rest, len: usize) -> WalkPlan {
+    let mut out: Vec<Call> = calls.to_vec();
+    match rest {
+        Rest::Front | Rest::Back | Rest::Alternate => {
+            // continue to exhaustion and two calls beyond
+            let done = out.len();
+            let remaining = len.saturating_sub(done.min(len)) + 2;
+            for i in 0..remaining {
+                out.push(match rest {
+                    Rest::Front => Call::Next,
+                    Rest::Back => Call::NextBack,
+                    _ => if i % 2 == 1 { Call::NextBack } else { Call::Next },
+                });
+            }
+            WalkPlan { calls: out, fin: Rest::Stop }
+        },
+        other => WalkPlan { calls: out, fin: other },
+    }
+}
+
+/// What a correct double-ended iterator over positions 0..len (least- to
+/// most-recently-used) answers to a plan.
+#[derive(Clone, Debug, Default)]
+pub struct WalkExpect {
+    /// per explicit call: the position yielded, or None (also for `Hint`)
+    pub per_call: Vec<Option<usize>>,
+    /// (front, back) consumed before each call: what remains is len - front - back
+    pub before: Vec<(usize, usize)>,
+    /// positions the finishing consumer hands out, in order
+    pub fin_items: Vec<usize>,
+    /// result of `count()`
+    pub fin_count: Option<usize>,
+    /// everything handed out (by calls and by the finishing consumer)
+    pub yielded: std::collections::BTreeSet<usize>,
+    /// index of the first call that returned None
+    pub exhausted_at: Option<usize>,
+    /// nothing is left inside the iterator when it is dropped
+    pub consumed_all: bool,
+}
+
+pub fn expect_walk(plan: &WalkPlan, len: usize) -> WalkExpect {
+    let mut e = WalkExpect::default();
+    let (mut i, mut j) = (0usize, 0usize);
+    for (n, c) in plan.calls.iter().enumerate() {
+        e.before.push((i, j));
+        let rem = len - i - j;
+        let r = match *c {
+            Call::Hint => { e.per_call.push(None); continue; },
+            Call::Next => if rem == 0 { None } else { i += 1; Some(i - 1) },
+            Call::NextBack => if rem == 0 { None } else { j += 1; Some(len - j) },
+            Call::Nth(k) => if (k as usize) >= rem { i = len - j; None } else { i += k as usize + 1; Some(i - 1) },
+            Call::NthBack(k) => if (k as usize) >= rem { j = len - i; None } else { j += k as usize + 1; Some(len - j) },
+        };
+        if r.is_none() && e.exhausted_at.is_none() {
+            e.exhausted_at = Some(n);
+        }
+        if let Some(p) = r { e.yielded.insert(p); }
+        e.per_call.push(r);
+    }
+    let rest: Vec<usize> = (i..len - j).collect();
+    match plan.fin {
+        Rest::Stop | Rest::Front | Rest::Back | Rest::Alternate => { e.consumed_all = rest.is_empty(); return e; },
+        Rest::Count => e.fin_count = Some(rest.len()),
+        Rest::Last => e.fin_items = rest.last().copied().into_iter().collect(),
+        Rest::Fold => e.fin_items = rest.clone(),
+        Rest::RFold => e.fin_items = rest.iter().rev().copied().collect(),
+        Rest::Skip(k) => e.fin_items = rest.iter().skip(k as usize).copied().collect(),
+        Rest::StepBy(k) => e.fin_items = rest.iter().step_by(k as usize + 1).copied().collect(),
+        Rest::RevStepBy(k) => e.fin_items = rest.iter().rev().step_by(k as usize + 1).copied().collect(),
+        Rest::TakeThenFront(_) => e.fin_items = rest.clone(),
+    }
+    e.yielded.extend(e.fin_items.iter().copied());
+    e.consumed_all = true;
+    e
+}
+
+/// What the driver reports to its sink.
+pub enum WalkOut<T> {
+    /// result of an explicit call
+    Item(Option<T>),
+    Hint(usize, Option<usize>),
+    /// item handed out by the finishing consumer
+    Fin(T),
+    Count(usize),
+}
+
+/// Drives any double-ended iterator through a plan. Generic, so that the
+/// very same calls are made on all seven iterator types.
+pub fn drive_walk<I: DoubleEndedIterator>(mut it: I, plan: &WalkPlan, forget: bool, mut sink: impl FnMut(WalkOut<I::Item>)) {
+    for c in &plan.calls {
+        match *c {
+            Call::Next => sink(WalkOut::Item(it.next())),
+            Call::NextBack => sink(WalkOut::Item(it.next_back())),
+            Call::Nth(k) => sink(WalkOut::Item(it.nth(k as usize))),
+            Call::NthBack(k) => sink(WalkOut::Item(it.nth_back(k as usize))),
+            Call::Hint => { let (lo, hi) = it.size_hint(); sink(WalkOut::Hint(lo, hi)); },
+        }
+    }
+    match plan.fin {
+        Rest::Stop | Rest::Front | Rest::Back | Rest::Alternate => {
+            if forget { std::mem::forget(it); }
+        },
+        Rest::Count => sink(WalkOut::Count(it.count())),
+        Rest::Last => { if let Some(x) = it.last() { sink(WalkOut::Fin(x)); } },
+        Rest::Fold => it.for_each(|x| sink(WalkOut::Fin(x))),
+        Rest::RFold => it.rev().for_each(|x| sink(WalkOut::Fin(x))),
+        Rest::Skip(k) => it.skip(k as usize).for_each(|x| sink(WalkOut::Fin(x))),
+        Rest::StepBy(k) => it.step_by(k as usize + 1).for_each(|x| sink(WalkOut::Fin(x))),
+        Rest::RevStepBy(k) => it.rev().step_by(k as usize + 1).for_each(|x| sink(WalkOut::Fin(x))),
+        Rest::TakeThenFront(k) => {
+            let first: Vec<I::Item> = it.by_ref().take(k as usize).collect();
+            for x in first { sink(WalkOut::Fin(x)); }
+            while let Some(x) = it.next() { sink(WalkOut::Fin(x)); }
+        },
+    }
 }
 
 #[derive(Clone, Copy, Debug, PartialEq, Eq, Hash)]
@@ -167,7 +368,7 @@ pub enum Op {
     ShrinkTo(CapArg),
     ShrinkToFit,
     /// calls: true = next_back
-    IterWalk { kind: IterKind, calls: Vec<bool>, rest: Rest, fate: Fate },
+    IterWalk { kind: IterKind, calls: Vec<Call>, rest: Rest, fate: Fate },
     Debug,
     Clone(CloneMode),
     Scalars,
@@ -243,6 +444,7 @@ impl SizeSel {
             SizeSel::FreePlus(d) => format!("free:{}", sgn(*d)),
             SizeSel::MaxPlus(d) => format!("max:{}", sgn(*d)),
             SizeSel::NeedEvict(n, d) => format!("evict:{}:{}", n, sgn(*d)),
+            SizeSel::Frac(k, d) => format!("frac:{}:{}", k, sgn(*d)),
         }
     }
 
@@ -254,6 +456,7 @@ impl SizeSel {
             ("free", 2) => SizeSel::FreePlus(p[1].parse().ok()?),
             ("max", 2) => SizeSel::MaxPlus(p[1].parse().ok()?),
             ("evict", 3) => SizeSel::NeedEvict(p[1].parse().ok()?, p[2].parse().ok()?),
+            ("frac", 3) => SizeSel::Frac(p[1].parse().ok()?, p[2].parse().ok()?),
             _ => return None,
         })
     }
@@ -271,6 +474,7 @@ impl SizeSel {
             SizeSel::NeedEvict(_, d) if *d < 0 => "evict-",
             SizeSel::NeedEvict(_, 0) => "evict0",
             SizeSel::NeedEvict(_, _) => "evict+",
+            SizeSel::Frac(..) => "frac",
         }
     }
 }
@@ -285,6 +489,8 @@ impl LimSel {
             LimSel::Ents(n, d) => format!("ents:{}:{}", n, sgn(*d)),
             LimSel::Max => "max".into(),
             LimSel::MaxMinus(d) => format!("maxminus:{}", d),
+            LimSel::Pow(e, d) => format!("pow:{}:{}", e, sgn(*d)),
+            LimSel::ThreeQuarters(d) => format!("threeq:{}", sgn(*d)),
         }
     }
 
@@ -298,6 +504,8 @@ impl LimSel {
             ("ents", 3) => LimSel::Ents(p[1].parse().ok()?, p[2].parse().ok()?),
             ("max", 1) => LimSel::Max,
             ("maxminus", 2) => LimSel::MaxMinus(p[1].parse().ok()?),
+            ("pow", 3) => LimSel::Pow(p[1].parse().ok()?, p[2].parse().ok()?),
+            ("threeq", 2) => LimSel::ThreeQuarters(p[1].parse().ok()?),
             _ => return None,
         })
     }
@@ -315,6 +523,7 @@ impl LimSel {
             LimSel::Ents(..) => "ents",
             LimSel::Max => "max",
             LimSel::MaxMinus(_) => "maxminus",
+            LimSel::Pow(..) | LimSel::ThreeQuarters(_) => "giant",
         }
     }
 }
@@ -363,20 +572,37 @@ impl CapArg {
     }
 }
 
-fn calls_text(calls: &[bool]) -> String {
+pub fn calls_text(calls: &[Call]) -> String {
     if calls.is_empty() {
         "-".into()
     }
     else {
-        calls.iter().map(|&b| if b { 'b' } else { 'f' }).collect()
+        calls.iter().map(|c| c.letter()).collect()
     }
 }
 
-fn calls_from(s: &str) -> Option<Vec<bool>> {
+fn calls_from(s: &str) -> Option<Vec<Call>> {
     if s == "-" {
         return Some(vec![]);
     }
-    s.chars().map(|c| match c { 'f' => Some(false), 'b' => Some(true), _ => None }).collect()
+    let mut out = Vec::new();
+    let mut it = s.chars();
+    while let Some(c) = it.next() {
+        out.push(match c {
+            'f' => Call::Next,
+            'b' => Call::NextBack,
+            'h' => Call::Hint,
+            'n' => Call::Nth(it.next()?.to_digit(16)? as u8),
+            'm' => Call::NthBack(it.next()?.to_digit(16)? as u8),
+            _ => return None,
+        });
+    }
+    Some(out)
+}
+
+/// plain next / next_back patterns
+pub fn calls_of(bits: &[bool]) -> Vec<Call> {
+    bits.iter().map(|&b| if b { Call::NextBack } else { Call::Next }).collect()
 }
 
 impl Op {
@@ -438,8 +664,7 @@ impl Op {
                 format!("try_reserve {} {}", arg.to_text(), if *fail_alloc { "refuse" } else { "ok" }),
             Op::ShrinkTo(a) => format!("shrink_to {}", a.to_text()),
             Op::IterWalk { kind, calls, rest, fate } =>
-                format!("iterwalk {} {} {} {}", kind.name(), calls_text(calls),
-                    match rest { Rest::Stop => "stop", Rest::Front => "front", Rest::Back => "back", Rest::Alternate => "alternate" },
+                format!("iterwalk {} {} {} {}", kind.name(), calls_text(calls), rest.to_text(),
                     match fate { Fate::Drop => "drop", Fate::Forget => "forget" }),
             Op::Clone(m) => format!("clone {}",
                 match m { CloneMode::Check => "check", CloneMode::Swap => "swap", CloneMode::Fork => "fork", CloneMode::From => "from" }),
@@ -510,10 +735,7 @@ impl Op {
             "iterwalk" => Op::IterWalk {
                 kind: IterKind::from_name(t.get(1)?)?,
                 calls: calls_from(t.get(2)?)?,
-                rest: match *t.get(3)? {
-                    "stop" => Rest::Stop, "front" => Rest::Front, "back" => Rest::Back,
-                    "alternate" => Rest::Alternate, _ => return None,
-                },
+                rest: Rest::from_text(t.get(3)?)?,
                 fate: match *t.get(4)? { "drop" => Fate::Drop, "forget" => Fate::Forget, _ => return None },
             },
             "clone" => Op::Clone(match *t.get(1)? {
@@ -673,6 +895,9 @@ fn dec_size(c: &mut Cursor) -> Option<SizeSel> {
     let tag = c.u8()?;
     let a = c.u8()?;
     let b = c.u8()?;
+    if tag >= 250 {
+        return Some(SizeSel::Frac(1 + a % 3, small(b)));
+    }
     Some(match tag % 5 {
         0 => SizeSel::Zero,
         1 => SizeSel::Abs(a as u32 | ((b as u32) << 8)),
@@ -692,6 +917,7 @@ fn enc_size(s: &SizeSel, out: &mut Vec<u8>) {
         SizeSel::FreePlus(d) => out.extend_from_slice(&[2, unsmall(*d), 0]),
         SizeSel::MaxPlus(d) => out.extend_from_slice(&[3, unsmall(*d), 0]),
         SizeSel::NeedEvict(n, d) => out.extend_from_slice(&[4, *n % 8, unsmall(*d)]),
+        SizeSel::Frac(k, d) => out.extend_from_slice(&[250, (*k + 2) % 3, unsmall(*d)]),
     }
 }
 
@@ -699,6 +925,9 @@ fn dec_lim(c: &mut Cursor) -> Option<LimSel> {
     let tag = c.u8()?;
     let a = c.u8()?;
     let b = c.u8()?;
+    if tag >= 250 {
+        return Some(if a % 3 == 2 { LimSel::ThreeQuarters(small(b)) } else { LimSel::Pow(62 + a % 2, small(b)) });
+    }
     Some(match tag % 7 {
         0 => LimSel::Zero,
         1 => LimSel::Abs(a as u32 | ((b as u32) << 8)),
@@ -722,6 +951,8 @@ fn enc_lim(l: &LimSel, out: &mut Vec<u8>) {
         LimSel::Ents(n, d) => out.extend_from_slice(&[4, (*n).min(255) as u8, unsmall(*d)]),
         LimSel::Max => out.extend_from_slice(&[5, 0, 0]),
         LimSel::MaxMinus(d) => out.extend_from_slice(&[6, *d, 0]),
+        LimSel::Pow(e, d) => out.extend_from_slice(&[250, if *e >= 63 { 1 } else { 0 }, unsmall(*d)]),
+        LimSel::ThreeQuarters(d) => out.extend_from_slice(&[250, 2, unsmall(*d)]),
     }
 }
 
@@ -796,10 +1027,25 @@ fn dec_op(c: &mut Cursor) -> Option<Op> {
             let kind = ITER_KINDS[(c.u8()? % 7) as usize];
             let n = (c.u8()? % 12) as usize;
             let bits = c.u16()?;
-            let calls = (0..n).map(|i| bits >> i & 1 == 1).collect();
+            let mut calls: Vec<Call> = (0..n).map(|i| if bits >> i & 1 == 1 { Call::NextBack } else { Call::Next }).collect();
             let rf = c.u8()?;
-            let rest = match rf % 4 { 0 => Rest::Stop, 1 => Rest::Front, 2 => Rest::Back, _ => Rest::Alternate };
+            let mut rest = match rf % 4 { 0 => Rest::Stop, 1 => Rest::Front, 2 => Rest::Back, _ => Rest::Alternate };
             let fate = if (rf >> 2) % 3 == 0 { Fate::Forget } else { Fate::Drop };
+            if rf >= 128 {
+                // positional calls and finishing consumers
+                let x = c.u8()?;
+                let y = c.u8()?;
+                if n > 0 && x % 4 != 0 {
+                    let at = (x >> 2) as usize % n;
+                    let back = matches!(calls[at], Call::NextBack);
+                    calls[at] = match x % 4 { 1 | 2 => if back { Call::NthBack(y % 8) } else { Call::Nth(y % 8) }, _ => Call::Hint };
+                }
+                rest = match (y >> 3) % 12 {
+                    0 | 1 | 2 => rest, 3 => Rest::Count, 4 => Rest::Last, 5 => Rest::Fold, 6 => Rest::RFold,
+                    7 => Rest::Skip(y >> 7 | (y & 1) << 1), 8 => Rest::StepBy(y & 3), 9 => Rest::RevStepBy(y & 3),
+                    _ => Rest::TakeThenFront(y & 3),
+                };
+            }
             Op::IterWalk { kind, calls, rest, fate }
         },
         24 => Op::Debug,
@@ -851,13 +1097,32 @@ fn enc_op(op: &Op, out: &mut Vec<u8>) {
             let n = calls.len().min(11);
             out.push(n as u8);
             let mut bits = 0u16;
-            for (i, &b) in calls.iter().take(n).enumerate() {
-                if b { bits |= 1 << i; }
+            for (i, c) in calls.iter().take(n).enumerate() {
+                if c.back() { bits |= 1 << i; }
             }
             out.extend_from_slice(&bits.to_le_bytes());
-            let r = match rest { Rest::Stop => 0, Rest::Front => 1, Rest::Back => 2, Rest::Alternate => 3 };
+            let r = match rest { Rest::Front => 1, Rest::Back => 2, Rest::Alternate => 3, _ => 0 };
             let f = match fate { Fate::Forget => 0, Fate::Drop => 1 };
-            out.push(r | (f << 2));
+            // the byte form keeps at most one positional call; richer walks
+            // are approximated (the fuzzer mutates from there)
+            let special = calls.iter().take(n).position(|c| !matches!(c, Call::Next | Call::NextBack));
+            if special.is_none() && !rest.finishing() {
+                out.push(r | (f << 2));
+            }
+            else {
+                out.push(r | (f << 2) | 128);
+                let (x, arg) = match special.map(|at| (at, calls[at])) {
+                    Some((at, Call::Nth(k))) | Some((at, Call::NthBack(k))) => (1 | (at as u8) << 2, k % 8),
+                    Some((at, _)) => (3 | (at as u8) << 2, 0),
+                    None => (0, 0),
+                };
+                out.push(x);
+                let sel: u8 = match rest {
+                    Rest::Count => 3, Rest::Last => 4, Rest::Fold => 5, Rest::RFold => 6, Rest::Skip(_) => 7,
+                    Rest::StepBy(_) => 8, Rest::RevStepBy(_) => 9, Rest::TakeThenFront(_) => 10, _ => 0,
+                };
+                out.push(arg | sel << 3);
+            }
         },
         Op::Debug => out.push(24),
         Op::Clone(m) => { out.push(25); out.push(match m { CloneMode::Check => 0, CloneMode::Swap => 1, CloneMode::Fork => 2, CloneMode::From => 3 }); },
@@ -884,7 +1149,7 @@ impl Case {
     /// Total: every byte string is a case; the sequence ends where the bytes do.
     pub fn from_bytes(data: &[u8]) -> Case {
         let mut c = Cursor::new(data);
-        let hasher = crate::hashers::ALL_HKINDS[(c.u8().unwrap_or(0) % 9) as usize];
+        let hasher = { let b = c.u8().unwrap_or(0); if b == 255 { crate::hashers::HKind::OneOff } else { crate::hashers::ALL_HKINDS[(b % 9) as usize] } };
         let capacity = CAPACITIES[(c.u8().unwrap_or(0) % 14) as usize];
         let limit = dec_lim(&mut c).unwrap_or(LimSel::Ents(4, 0));
         let limit = match limit {
@@ -906,7 +1171,7 @@ impl Case {
 
     pub fn to_bytes(&self) -> Vec<u8> {
         let mut out = Vec::new();
-        out.push(crate::hashers::ALL_HKINDS.iter().position(|h| *h == self.config.hasher).unwrap_or(0) as u8);
+        out.push(if self.config.hasher == crate::hashers::HKind::OneOff { 255 } else { crate::hashers::ALL_HKINDS.iter().position(|h| *h == self.config.hasher).unwrap_or(0) as u8 });
         out.push(CAPACITIES.iter().position(|c| *c == self.config.capacity).unwrap_or(0) as u8);
         enc_lim(&self.config.limit, &mut out);
         out.push(UNIVERSES.iter().position(|u| *u == self.config.universe).unwrap_or(1) as u8);
